@@ -18,6 +18,10 @@ func (vc *VC) mapHeaps(t types.Type) (mv, mp, ks, vs string) {
 	vc.flushSortDecls()
 	mv = "MV_" + sanitize(ks) + "_" + sanitize(vs)
 	mp = "MP_" + sanitize(ks)
+	if vc.mapKeySort == nil {
+		vc.mapKeySort = map[string]string{}
+	}
+	vc.mapKeySort[mv] = ks
 	vc.registerHeap(mv, fmt.Sprintf("(Array %s %s)", ks, vs))
 	vc.registerHeap(mp, fmt.Sprintf("(Array %s Bool)", ks))
 	vc.registerHeap("MC", "Int")
@@ -26,7 +30,10 @@ func (vc *VC) mapHeaps(t types.Type) (mv, mp, ks, vs string) {
 
 func (vc *VC) mapInitEmpty(st *State, loc string, t types.Type, guard string) {
 	_, mp, ks, _ := vc.mapHeaps(t)
-	vc.assume(guard, Eq(App("select", vc.heapOf(st, mp), loc), fmt.Sprintf("((as const (Array %s Bool)) false)", ks)))
+	// no key is present (stated pointwise: constant-array terms make the
+	// solvers' array theory report "incomplete")
+	sel := App("select", App("select", vc.heapOf(st, mp), loc), "k!")
+	vc.assume(guard, fmt.Sprintf("(forall ((k! %s)) (! (not %s) :pattern (%s)))", ks, sel, sel))
 	vc.assume(guard, Eq(App("select", vc.heapOf(st, "MC"), loc), "0"))
 }
 
@@ -93,10 +100,11 @@ func (f *frame) execMapDelete(args []Val, in string, st *State) {
 	_, mp, _, _ := vc.mapHeaps(m.Typ)
 	had := vc.mapHas(st, m, k)
 	newC := Ite(had, App("-", App("select", vc.heapOf(st, "MC"), m.T), "1"), App("select", vc.heapOf(st, "MC"), m.T))
-	// delete on a nil map is a no-op: guard the stores
-	nonNil := Not(Eq(m.T, "Null"))
-	vc.setHeap(st, "MC", Ite(nonNil, App("store", vc.heapOf(st, "MC"), m.T, newC), vc.heapOf(st, "MC")))
-	vc.setHeap(st, mp, Ite(nonNil, App("store", vc.heapOf(st, mp), m.T, App("store", App("select", vc.heapOf(st, mp), m.T), k, "false")), vc.heapOf(st, mp)))
+	// delete on a nil map is a no-op. The cells of the Null reference are never
+	// read as "present" (mapHas requires a non-nil map), so the stores need no
+	// guard - array-valued ite terms make the solvers' array theory incomplete.
+	vc.setHeap(st, "MC", App("store", vc.heapOf(st, "MC"), m.T, newC))
+	vc.setHeap(st, mp, App("store", vc.heapOf(st, mp), m.T, App("store", App("select", vc.heapOf(st, mp), m.T), k, "false")))
 }
 
 func (vc *VC) setHeap(st *State, key, term string) {
